@@ -26,9 +26,9 @@ for p in props:
 m = {
     "version": 1,
     "setup_cmd": "./setup.sh",
-    "hooks": {"guard": "OVM_VERIF_HOOKS", "enable": "harness builds pass -DOVM_VERIF_HOOKS (build.py); no source hook exists in the repository",
+    "hooks": {"guard": "OVM_VERIF_HOOKS", "enable": "harness builds pass -DOVM_VERIF_HOOKS (build.py); the one source hook (IO/detail/BinaryFileWriter: skip the 100 MB pre-reservation of the chunk buffer) is active only with that define",
               "baseline_off_cmd": "cmake --build /repo/_build -j16 && ctest --test-dir /repo/_build -j8 --timeout 900",
-              "source_commits": [], "add_only": True},
+              "source_commits": ["65f5718"], "add_only": True},
     "engines": J.ENGINES,
     "checks": checks,
     "notes": "See DESIGN.md. Every check rebuilds the harness from /repo's working tree (build.sh), explores exhaustively within the bounds recorded in its evidence file, confirms violations by replay and honours known_findings.json.",
